@@ -598,3 +598,104 @@ Proof.
   pose proof (gen_Done g1 m1 fuel R1 (Hsm m1 eq_refl)) as Hd. rewrite Hr in Hd. destruct Hd as (g2 & E2).
   exists g2. split; assumption.
 Qed.
+
+(** ** a closed form for [within]: the sequence is short enough for Go's int and
+    for the fuel.  Every call adds at most 2*depth + its own text + 6 bytes and
+    one level of nesting. *)
+Lemma o_punct_facts m : o_depth (o_punct m) = o_depth m /\ length (o_stack (o_punct m)) = length (o_stack m) /\
+  (length (o_data (o_punct m)) <= length (o_data m) + 2)%nat.
+Proof.
+  unfold o_punct. destruct (o_stack m) as [|[| |] st] eqn:E; cbn [o_depth o_stack o_data length]; rewrite ?E; cbn [length];
+    rewrite ?app_length; cbn [length]; repeat split; lia.
+Qed.
+
+Lemma step_growth m op m1 : o_step m op = Ok m1 ->
+  (length (o_data m1) <= length (o_data m) + 2 * o_depth m + op_extra op + 6 /\ o_depth m1 <= o_depth m + 1
+   /\ length (o_stack m1) <= length (o_stack m) + 1)%nat.
+Proof.
+  destruct (o_prefix_facts m) as (P1 & P2 & P3).
+  destruct op as [| | | |n|s|]; cbn [o_step op_extra]; intros H.
+  - inversion H; subst. cbn [o_data o_depth o_stack o_add length]. rewrite app_length, P1, P2. cbn [length]. lia.
+  - destruct (o_end m) as [m0| | | |] eqn:E; cbn [bind] in H; try discriminate. inversion H; subst.
+    destruct (o_end_bounds m m0 E) as (B1 & B2 & B3). destruct (o_prefix_facts m0) as (Q1 & Q2 & Q3).
+    destruct (o_punct_facts (o_add [125] (o_prefix m0))) as (U1 & U2 & U3).
+    rewrite U1, U2. cbn [o_add o_data o_depth o_stack] in *. rewrite app_length in U3. cbn [length] in U3. rewrite Q1, Q2. lia.
+  - inversion H; subst. cbn [o_data o_depth o_stack o_add length]. rewrite app_length, P1, P2. cbn [length]. lia.
+  - destruct (o_end m) as [m0| | | |] eqn:E; cbn [bind] in H; try discriminate. inversion H; subst.
+    destruct (o_end_bounds m m0 E) as (B1 & B2 & B3). destruct (o_prefix_facts m0) as (Q1 & Q2 & Q3).
+    destruct (o_punct_facts (o_add [93] (o_prefix m0))) as (U1 & U2 & U3).
+    rewrite U1, U2. cbn [o_add o_data o_depth o_stack] in *. rewrite app_length in U3. cbn [length] in U3. rewrite Q1, Q2. lia.
+  - inversion H; subst. clear H. pose proof (append_string_length n) as Hal.
+    remember (o_add (append_string n) (mkjout (o_data (o_prefix m)) (o_depth (o_prefix m)) true (o_stack (o_prefix m)))) as m3 eqn:E3.
+    destruct (o_punct_facts m3) as (U1 & U2 & U3).
+    assert (A1 : length (o_data m3) = (length (o_data (o_prefix m)) + length (append_string n))%nat) by (subst m3; cbn [o_add o_data]; apply app_length).
+    assert (A2 : o_depth m3 = o_depth m) by (subst m3; cbn [o_add o_depth]; exact P1).
+    assert (A3 : length (o_stack m3) = length (o_stack m)) by (subst m3; cbn [o_add o_stack]; rewrite P2; reflexivity).
+    rewrite U1, U2. lia.
+  - inversion H; subst. clear H.
+    remember (o_add (scal_bytes s) (o_prefix m)) as m3 eqn:E3.
+    destruct (o_punct_facts m3) as (U1 & U2 & U3).
+    assert (A1 : length (o_data m3) = (length (o_data (o_prefix m)) + length (scal_bytes s))%nat) by (subst m3; cbn [o_add o_data]; apply app_length).
+    assert (A2 : o_depth m3 = o_depth m) by (subst m3; cbn [o_add o_depth]; exact P1).
+    assert (A3 : length (o_stack m3) = length (o_stack m)) by (subst m3; cbn [o_add o_stack]; rewrite P2; reflexivity).
+    assert (A4 : (length (scal_bytes s) <= op_extra (OScalar s))%nat).
+    { destruct s as [t|v]; cbn [scal_bytes op_extra]; [lia|apply append_string_length]. }
+    rewrite U1, U2. cbn [op_extra] in A4. destruct s; cbn [op_extra] in *; lia.
+  - inversion H; subst. cbn. lia.
+Qed.
+
+Definition ops_extra (ops : list oop) : nat := fold_right (fun op a => op_extra op + a)%nat 0%nat ops.
+
+Theorem within_of_bound : forall ops fuel m,
+  (o_depth m + length ops < fuel)%nat ->
+  Forall (fun op => op_len op < fuel)%nat ops ->
+  (Z.of_nat (length (o_data m)) + Z.of_nat (length ops) * (2 * (Z.of_nat (o_depth m) + Z.of_nat (length ops)) + 6)
+   + Z.of_nat (ops_extra ops) + 2 * (Z.of_nat (o_depth m) + Z.of_nat (length ops)) + 16 < 4611686018427387904)%Z ->
+  (Z.of_nat (length (o_stack m)) + Z.of_nat (length ops) + 1 < 4611686018427387904)%Z ->
+  within fuel m ops.
+Proof.
+  induction ops as [|op r IH]; intros fuel m Hf Hl Hd Hs; [exact I|].
+  cbn [within]. cbn [length ops_extra fold_right] in *. fold (ops_extra r) in Hd. inversion Hl as [|? ? Hop Hr]; subst.
+  split; [|split; [lia|split; [exact Hop|]]].
+  - unfold roomy. repeat split; try lia; nia.
+  - destruct (o_step m op) as [m1| | | |] eqn:E; try exact I.
+    destruct (step_growth m op m1 E) as (G1 & G2 & G3).
+    apply IH; [lia|exact Hr| |lia].
+    nia.
+Qed.
+
+Lemma run_growth : forall ops m m1, o_run m ops = Ok m1 ->
+  (Z.of_nat (length (o_data m1)) <= Z.of_nat (length (o_data m)) + Z.of_nat (length ops) * (2 * (Z.of_nat (o_depth m) + Z.of_nat (length ops)) + 6) + Z.of_nat (ops_extra ops)
+   /\ Z.of_nat (o_depth m1) <= Z.of_nat (o_depth m) + Z.of_nat (length ops)
+   /\ Z.of_nat (length (o_stack m1)) <= Z.of_nat (length (o_stack m)) + Z.of_nat (length ops))%Z.
+Proof.
+  induction ops as [|op r IH]; intros m m1 H; cbn [o_run] in H.
+  - inversion H; subst. cbn [length ops_extra fold_right]. lia.
+  - destruct (o_step m op) as [m0| | | |] eqn:E; cbn [bind] in H; try discriminate.
+    destruct (step_growth m op m0 E) as (G1 & G2 & G3). destruct (IH m0 m1 H) as (I1 & I2 & I3).
+    cbn [length ops_extra fold_right]. fold (ops_extra r).
+    assert (G1z : (Z.of_nat (length (o_data m0)) <= Z.of_nat (length (o_data m)) + 2 * Z.of_nat (o_depth m) + Z.of_nat (op_extra op) + 6)%Z) by lia.
+    assert (G2z : (Z.of_nat (o_depth m0) <= Z.of_nat (o_depth m) + 1)%Z) by lia.
+    remember (Z.of_nat (length (o_data m0))) as a0. remember (Z.of_nat (length (o_data m))) as a.
+    remember (Z.of_nat (o_depth m0)) as d0. remember (Z.of_nat (o_depth m)) as d.
+    remember (Z.of_nat (length r)) as n. remember (Z.of_nat (ops_extra r)) as x. remember (Z.of_nat (op_extra op)) as y.
+    remember (Z.of_nat (length (o_data m1))) as a1.
+    assert (0 <= n)%Z by lia. assert (0 <= d)%Z by lia. assert (0 <= d0)%Z by lia.
+    repeat split; try lia.
+    replace (Z.of_nat (S (length r))) with (n + 1)%Z by lia. replace (Z.of_nat (op_extra op + ops_extra r)) with (y + x)%Z by lia.
+    assert (n * (2 * (d0 + n) + 6) <= n * (2 * (d + 1 + n) + 6))%Z by (apply Z.mul_le_mono_nonneg_l; lia).
+    nia.
+Qed.
+
+(** C15 on the code as translated, with nothing left to assume but the size of the document *)
+Theorem gen_renders_tree_bounded : forall t fuel,
+  let ops := ops_of t in
+  (length ops < fuel)%nat -> Forall (fun op => op_len op < fuel)%nat ops ->
+  (Z.of_nat (length ops) * (2 * Z.of_nat (length ops) + 8) + Z.of_nat (ops_extra ops) + 17 < 4611686018427387904)%Z ->
+  exists g1 g2, gen_run fuel gen_init ops = Ok g1 /\ JSONOutput_Done fuel g1 = Ok (g2, render 0 false t ++ [10]).
+Proof.
+  intros t fuel ops Hf Hl Hb. apply gen_renders_tree.
+  - apply within_of_bound; cbn [jout_init o_depth o_data o_stack length]; try assumption; try lia; fold ops; nia.
+  - intros m1 Hrun. destruct (run_growth _ _ _ Hrun) as (G1 & G2 & G3). cbn [jout_init o_depth o_data o_stack length] in *.
+    fold ops in G1, G2, G3. repeat split; nia.
+Qed.
